@@ -15,7 +15,8 @@ pub struct ExFilterMap<I, F>(FilterMap<I, F>);
 // (core::iter::Map already has a type specification in vstd)
 
 /// std `Iterator::filter_map`: the output is exactly the `Some` results of applying `f` to the
-/// remaining source elements (stated element-wise in both directions; order is not claimed).
+/// remaining source elements (every output is the `Some` result of a source element; every source element either
+/// produced `None` or produced one of the outputs; order is not claimed).
 #[verifier::external_body]
 pub fn vx_filter_map<I: Iterator, B, F: FnMut(I::Item) -> Option<B>>(it: I, f: F) -> (r: FilterMap<I, F>)
     requires
@@ -25,8 +26,9 @@ pub fn vx_filter_map<I: Iterator, B, F: FnMut(I::Item) -> Option<B>>(it: I, f: F
         r.obeys_prophetic_iter_laws(),
         forall|j: int| 0 <= j < r.remaining().len() ==>
             exists|i: int| 0 <= i < it.remaining().len() && f.ensures((it.remaining()[i],), Some(#[trigger] r.remaining()[j])),
-        forall|i: int, y: B| 0 <= i < it.remaining().len() && #[trigger] f.ensures((it.remaining()[i],), Some(y)) ==>
-            exists|j: int| 0 <= j < r.remaining().len() && r.remaining()[j] == y,
+        forall|i: int| 0 <= i < it.remaining().len() ==>
+            f.ensures((#[trigger] it.remaining()[i],), None)
+            || exists|j: int| 0 <= j < r.remaining().len() && f.ensures((it.remaining()[i],), Some(#[trigger] r.remaining()[j])),
 {
     it.filter_map(f)
 }
@@ -58,6 +60,14 @@ pub fn vx_any<I: Iterator, F: FnMut(I::Item) -> bool>(it: I, f: F) -> (r: bool)
 {
     let mut it = it;
     it.any(f)
+}
+
+/// Rule R13: `a |= b` on bools is rewritten to `a = vx_bool_or(a, b)`.
+#[verifier::external_body]
+pub fn vx_bool_or(a: bool, b: bool) -> (r: bool)
+    ensures r == (a || b),
+{
+    a | b
 }
 
 } // verus!
